@@ -205,6 +205,11 @@ pub fn record(seed: u64, n: usize, cli: &str) -> Vec<J> {
         items.push((items.len(), mv::str_src(t), false));
         items.push((items.len(), format!("{{[{}]: 1, k: {}}}", mv::str_src(t), mv::str_src(t)), false));
     }
+    // strings that spell a value of another type: every one of them is a string and stays one
+    for t in ["Infinity", "-Infinity", "NaN", "inf", "null", "true", "false", "1", "1.0", "1e5", "-0", "[]", "{}", "undefined", "x => x", "\u{feff}", "a\u{feff}b\u{feff}"] {
+        items.push((items.len(), mv::str_src(t), false));
+        items.push((items.len(), format!("[{}, {{[{}]: {}}}]", mv::str_src(t), mv::str_src(t), mv::str_src(t)), false));
+    }
     items.push((items.len(), "[\"/*\", \"k\", \"*/\", {\"/* a\": 1, \"b */\": 2}, \" //\", 3]".to_string(), false));
     // ... and long strings of 2-, 3- and 4-byte characters at every byte alignment: a reader that decodes the piped
     // document piecewise splits a character wherever a piece ends
